@@ -34,6 +34,7 @@ def main():
     ap.add_argument("--name")
     ap.add_argument("--seeded", action="store_true")
     ap.add_argument("--seed", type=int, default=1)
+    ap.add_argument("--missing", action="store_true", help="skip items that already have a result")
     a = ap.parse_args()
     resfile = os.path.join(ROOT, "mutants", "results.json")
     results = json.load(open(resfile)) if os.path.exists(resfile) else {}
@@ -53,6 +54,8 @@ def main():
         if a.only and prop != a.only:
             continue
         if a.name and a.name not in name:
+            continue
+        if a.missing and name in results and "runs" in results[name]:
             continue
         fresh()
         if old is None:
